@@ -21,7 +21,9 @@
 package runner
 
 import (
+	"errors"
 	"fmt"
+	"io/fs"
 	"os"
 	"path/filepath"
 
@@ -59,8 +61,51 @@ func (s *StepCodeGenerator) Run(_ *input.Input, o *output.Output) error {
 	}
 	s.printer.Println(fmt.Sprintf("Printing to the file `%s`", s.outputFile))
 	of := filepath.Clean(s.outputFile)
-	if err := os.WriteFile(of, []byte(tpl), 0644); err != nil {
+	if err := writeFile(of, []byte(tpl), 0644); err != nil {
 		return err
 	}
 	return nil
+}
+
+// writeFile writes data to a temporary file next to name and renames it over name,
+// so a failed write (e.g. a full disk) never leaves a truncated or partial file behind.
+func writeFile(name string, data []byte, perm os.FileMode) (err error) {
+	fi, statErr := os.Lstat(name)
+	switch {
+	case statErr == nil && !fi.Mode().IsRegular():
+		// devices, pipes, symlinks: there is nothing to replace, write through
+		return os.WriteFile(name, data, perm)
+	case statErr == nil:
+		perm = fi.Mode().Perm()
+	case !errors.Is(statErr, fs.ErrNotExist):
+		return statErr
+	}
+
+	tmp, err := os.CreateTemp(filepath.Dir(name), "."+filepath.Base(name)+".tmp*")
+	if err != nil {
+		// report the output file, not the random name of the temporary one
+		var pathErr *fs.PathError
+		if errors.As(err, &pathErr) {
+			return &fs.PathError{Op: "open", Path: name, Err: pathErr.Err}
+		}
+		return err
+	}
+	defer func() {
+		if err != nil {
+			_ = os.Remove(tmp.Name())
+		}
+	}()
+
+	if _, err = tmp.Write(data); err != nil {
+		_ = tmp.Close()
+		return err
+	}
+	if err = tmp.Chmod(perm); err != nil {
+		_ = tmp.Close()
+		return err
+	}
+	if err = tmp.Close(); err != nil {
+		return err
+	}
+	return os.Rename(tmp.Name(), name)
 }
